@@ -7,7 +7,7 @@
 
   Text is `List Char` (Unicode scalar values).  A Rust panic is `none`.
   Modelled fragment of the options: `wrap_with_char` is the empty string (`none`) or a single
-  character (`some q`); longer wrap strings are outside the model (the driver answers `unmodelled`).
+  character (`some q`); longer wrap strings are modelled in `Umya/Model/CsvWrap.lean`.
   Core Lean only.
 -/
 namespace Umya.Csv
